@@ -22,6 +22,11 @@ type (
 
 		// Lookup table of callables by Id.  Populated during compile.
 		Table map[string]Callable
+
+		// The types of the AST these callables belong to.  Set while two
+		// ASTs are being compared, so that parameter types can be compared
+		// by their definitions.
+		types *TypeLookup
 	}
 
 	Stage struct {
